@@ -36,10 +36,12 @@ import unified_planning.engines as engines
 import unified_planning.engines.mixins as mixins
 from unified_planning.model.action import DurativeAction, InstantaneousAction
 from unified_planning.model.effect import Effect, EffectKind, SimulatedEffect
+from unified_planning.model.fluent import get_all_fluent_exp
 from unified_planning.model.fnode import FNode
 from unified_planning.model.metrics import PlanQualityMetric, MinimizeActionCosts
 from unified_planning.model.state import UPState
 from unified_planning.model.timing import TimeInterval, TimepointKind, Timing
+from unified_planning.model.types import _RealType
 from unified_planning.model import (
     AbstractProblem,
     Problem,
@@ -63,6 +65,7 @@ from unified_planning.engines.sequential_simulator import (
     evaluate_quality_metric_in_final_state,
 )
 from unified_planning.model.walkers.state_evaluator import StateEvaluator
+from unified_planning.model.walkers import ExpressionQuantifiersRemover
 from unified_planning.plans import SequentialPlan, PlanKind
 from unified_planning.exceptions import (
     UPConflictingEffectsException,
@@ -602,7 +605,25 @@ class TimeTriggeredPlanValidator(engines.engine.Engine, mixins.PlanValidatorMixi
                 )
                 next_id += 1
 
-        for invariant in problem.state_invariants:
+        # The state invariants are checked on their quantifier-free version and the
+        # bounded numeric types are checked as state invariants, as the
+        # UPSequentialSimulator does
+        qrm = ExpressionQuantifiersRemover(problem.environment)
+        invariants: List[FNode] = [
+            qrm.remove_quantifiers(si, problem).simplify()
+            for si in problem.state_invariants
+        ]
+        for f in problem.fluents:
+            if f.type.is_int_type() or f.type.is_real_type():
+                lower_bound = cast(_RealType, f.type).lower_bound
+                upper_bound = cast(_RealType, f.type).upper_bound
+                if lower_bound is not None:
+                    for f_e in get_all_fluent_exp(problem, f):
+                        invariants.append(em.LE(lower_bound, f_e))
+                if upper_bound is not None:
+                    for f_e in get_all_fluent_exp(problem, f):
+                        invariants.append(em.LE(f_e, upper_bound))
+        for invariant in invariants:
             durative_conditions.append(
                 (
                     (Fraction(0), plan_duration, False),
